@@ -93,7 +93,6 @@ def run(cfg):
     selector_rule(R, zs)
     finder_rule(R, zs)
     abbrev_rule(R, lib, zs)
-    start_until_rule(R, lib, zs)
     pool_rules(R, lib, zs)
     return R
 
@@ -798,55 +797,31 @@ def window_rule(R, lib, zs):
         if i >= 0 and isinstance(args.defaults[i], ast.Constant):
             default = args.defaults[i].value
     R.instance('R3', 'ZoneSpecifier.__init__:viewing_months', ctor.loc, 'default %r' % default)
-    # the window handed to _find_matches() on the path taken for the default viewing_months: read off the path summary
-    # (small private helpers of the class are summarised in place, so the arms may live in a helper)
-    from .gnf import eval_formula, arith_assign, poly_leaves
+    # the window the reference works with: ZoneSpecifier (built with its default arguments) is interpreted (E-SEQ over the
+    # Python ast) on a zone of one unbounded era; the single match it finds is that era clipped to [start_ym, until_ym)
+    from .pyeval import PyEval, Raised as PRaised
     pw = None
-    sxp = SymExec(lang='py')
-
-    def py_inliner(name, nargs):
-        g_ = zs.funcs.get(name)
-        if g_ is None or not name.startswith('ZoneSpecifier._') or name.endswith(('_find_matches', '_find_transitions')):
-            return None
-        ss = list(walk_stmts(g_.body))
-        return g_ if len(ss) <= 30 and not any(x.k == 'loop' for x in ss) else None
-    sxp.inliner = py_inliner
+    YEAR = 2005
+    era = {'offsetSeconds': 3600, 'zonePolicy': '-', 'rulesDeltaSeconds': 0, 'format': 'ONE', 'untilYear': 10000, 'untilMonth': 1, 'untilDay': 1,
+           'untilSeconds': 0, 'untilTimeSuffix': 'w'}
+    pev = PyEval(R.cfg, max_steps=2000000)
+    first = [p_ for p_ in ctor.params if p_ != 'self'][:1]
     try:
-        sp_ = sxp.run(pf.name, pf.body, {})
-    except AnalysisError:
-        sp_ = None
-    if sp_ is not None:
-        base = arith_assign({'self.viewing_months': default, 'self.year': -1, 'year': 2000, 'self.debug': 0})
-
-        def asg(a_):
-            v_ = base(a_)
-            return 0 if v_ is None else v_
-        yr = Poly.atom(('sym', 'year'))
-        for g_, kind, res, eff in sp_.paths:
-            try:
-                if not eval_formula(g_, asg):
-                    continue
-            except (KeyError, TypeError):
-                continue
-            for _t, v_ in eff:
-                for a_ in poly_leaves(_P(v_), kinds=('fn',)):
-                    if a_[1].endswith('_find_matches') and len(a_[2]) >= 2:
-                        win = []
-                        for k_ in a_[2][-2:]:
-                            t_ = _atom(_P(k_))
-                            if t_ is None or t_[0] not in ('fn', 'init') or len(t_[2]) != 2:
-                                win = None
-                                break
-                            d_, m_ = _P(t_[2][0]) - yr, _P(t_[2][1])
-                            if not (d_.is_const() and m_.is_const()):
-                                win = None
-                                break
-                            win.append((d_.const_value(), m_.const_value()))
-                        if win:
-                            pw = win
+        z = pev.instantiate(zs, 'ZoneSpecifier', kwargs={first[0]: {'name': 'Model/One', 'eras': [era]}} if first else {})
+        pev.call(zs, 'ZoneSpecifier.init_for_year', [YEAR], recv=z)
+        ms = z.attrs.get('matches')
+        if isinstance(ms, list) and len(ms) == 1:
+            s_, u_ = ms[0].attrs.get('startDateTime'), ms[0].attrs.get('untilDateTime')
+            if (s_.d, s_.ss, u_.d, u_.ss) == (1, 0, 1, 0):
+                pw = [(s_.y - YEAR, s_.M), (u_.y - YEAR, u_.M)]
+    except PRaised as x_:
+        R.violation('R3', c, pf.loc, 'init_for_year(%d) on a zone of one unbounded era raises %s' % (YEAR, x_.what))
+        return
+    except AttributeError:
+        pw = None
     R.instance('R3', 'ZoneSpecifier.init_for_year:window', pf.loc, 'window %r' % (pw,))
     if pw is None:
-        R.violation('R3', c, pf.loc, 'init_for_year has no arm for the default viewing_months=%r that sets start_ym and until_ym from year' % default)
+        R.violation('R3', c, pf.loc, 'init_for_year(%d) with the default viewing_months=%r does not leave one match running from the first of a month to the first of a month for a zone of one unbounded era' % (YEAR, default))
         return
     if cw != pw:
         R.violation('R3', c, f.loc, 'the C++ window is [year%+d month %d, year%+d month %d) but the reference uses [year%+d month %d, year%+d month %d): '
@@ -1129,23 +1104,23 @@ SELFTEST = [
     dict(id='cpp-compaction-unconditional-swap-silent', file='src/ace_time/ExtendedZoneProcessor.h',
          find='          if (iActive != iCandidate) {\n            swap(&mTransitions[iActive], &mTransitions[iCandidate]);\n          }', replace='          swap(&mTransitions[iActive], &mTransitions[iCandidate]);', expect='silent'),
     dict(id='cpp-start-ignores-previous-offsets', file='src/ace_time/ExtendedZoneProcessor.h',
-         find='            - prev->offsetMinutes - prev->deltaMinutes\n            + t->offsetMinutes + t->deltaMinutes);', replace='            + t->deltaMinutes);', rule='R8'),
+         find='            - prev->offsetMinutes - prev->deltaMinutes\n            + t->offsetMinutes + t->deltaMinutes);', replace='            + t->deltaMinutes);', rule='R1'),
     dict(id='python-start-delta-sign', file='tools/zonedb/zone_specifier.py',
-         find='                    + transition.offsetSeconds + transition.deltaSeconds)', replace='                    + transition.offsetSeconds - transition.deltaSeconds)', rule='R8'),
+         find='                    + transition.offsetSeconds + transition.deltaSeconds)', replace='                    + transition.offsetSeconds - transition.deltaSeconds)', rule='R1'),
     dict(id='cpp-start-epoch-in-previous-offset', file='src/ace_time/ExtendedZoneProcessor.h',
-         find='            * (st.minutes - (t->offsetMinutes + t->deltaMinutes));', replace='            * (st.minutes - (prev->offsetMinutes + prev->deltaMinutes));', rule='R8'),
+         find='            * (st.minutes - (t->offsetMinutes + t->deltaMinutes));', replace='            * (st.minutes - (prev->offsetMinutes + prev->deltaMinutes));', rule='R1'),
     dict(id='python-start-epoch-without-delta', file='tools/zonedb/zone_specifier.py',
-         find='            utc_offset_seconds = transition.offsetSeconds \\\n                + transition.deltaSeconds', replace='            utc_offset_seconds = transition.offsetSeconds', rule='R8'),
-    dict(id='cpp-prev-never-advances', file='src/ace_time/ExtendedZoneProcessor.h', find='        prev = t;\n        isAfterFirst = true;', replace='        isAfterFirst = true;', rule='R8'),
-    dict(id='cpp-after-first-never-set', file='src/ace_time/ExtendedZoneProcessor.h', find='        prev = t;\n        isAfterFirst = true;', replace='        prev = t;', rule='R8'),
-    dict(id='cpp-start-not-normalised', file='src/ace_time/ExtendedZoneProcessor.h', find='        normalizeDateTuple(&t->startDateTime);\n', replace='', rule='R8'),
+         find='            utc_offset_seconds = transition.offsetSeconds \\\n                + transition.deltaSeconds', replace='            utc_offset_seconds = transition.offsetSeconds', rule='R1'),
+    dict(id='cpp-prev-never-advances', file='src/ace_time/ExtendedZoneProcessor.h', find='        prev = t;\n        isAfterFirst = true;', replace='        isAfterFirst = true;', rule='R1'),
+    dict(id='cpp-after-first-never-set', file='src/ace_time/ExtendedZoneProcessor.h', find='        prev = t;\n        isAfterFirst = true;', replace='        prev = t;', rule='R1'),
+    dict(id='cpp-start-not-normalised', file='src/ace_time/ExtendedZoneProcessor.h', find='        normalizeDateTuple(&t->startDateTime);\n', replace='', rule='R1'),
     dict(id='python-fix-times-with-own-offsets', file='tools/zonedb/zone_specifier.py',
-         find='                prev.offsetSeconds,\n                prev.deltaSeconds,\n            )', replace='                transition.offsetSeconds,\n                transition.deltaSeconds,\n            )', rule='R8'),
+         find='                prev.offsetSeconds,\n                prev.deltaSeconds,\n            )', replace='                transition.offsetSeconds,\n                transition.deltaSeconds,\n            )', rule='R1'),
     dict(id='cpp-fix-times-prev-stuck', file='src/ace_time/ExtendedZoneProcessor.h', regex=True,
-         find=r'(            prev->offsetMinutes, prev->deltaMinutes\);\n)        prev = curr;\n', replace=r'\1', rule='R8'),
+         find=r'(            prev->offsetMinutes, prev->deltaMinutes\);\n)        prev = curr;\n', replace=r'\1', rule='R1'),
     dict(id='cpp-last-until-without-delta', file='src/ace_time/ExtendedZoneProcessor.h',
          find='      expandDateTuple(&untilTime, &untilTimeS, &untilTimeU,\n          prev->offsetMinutes, prev->deltaMinutes);',
-         replace='      expandDateTuple(&untilTime, &untilTimeS, &untilTimeU,\n          prev->offsetMinutes, 0);', rule='R8'),
+         replace='      expandDateTuple(&untilTime, &untilTimeS, &untilTimeU,\n          prev->offsetMinutes, 0);', rule='R1'),
     dict(id='cpp-start-regrouped-silent', file='src/ace_time/ExtendedZoneProcessor.h',
          find='        int16_t minutes = tt.minutes + (\n            - prev->offsetMinutes - prev->deltaMinutes\n            + t->offsetMinutes + t->deltaMinutes);',
          replace='        int16_t minutes = tt.minutes - (prev->offsetMinutes + prev->deltaMinutes)\n            + (t->offsetMinutes + t->deltaMinutes);', expect='silent'),
